@@ -28,6 +28,8 @@ type GenOpt struct {
 	CmdLiteral bool
 	StoreLoad  bool
 	Noise      bool // indentation, spacing variants, comments, blank lines
+	// NestInCmdline: cmdline blocks may contain nested assemble blocks (single units among the words)
+	NestInCmdline bool
 	// TrailWS: some entries (outside cmdline blocks) end in blanks or tabs; only indentation is
 	// insignificant, so the trailing white space is part of the expression.
 	TrailWS bool
@@ -514,6 +516,17 @@ func (s *genState) body(depth int, inCmd bool) []Line {
 				case s.o.IncludeInCmdline && len(s.files) > 0 && rapid.IntRange(0, 2).Draw(t, "cmdinc") == 0:
 					add(Line{K: KInclude, File: s.spellFile(rapid.SampledFrom(s.files).Draw(t, "cmdincfile"))})
 					s.label("include-in-cmdline")
+				case s.o.NestInCmdline && rapid.IntRange(0, 5).Draw(t, "cmdnest") == 0:
+					add(Line{K: KAStart})
+					for _, e := range rapid.SampledFrom([][]string{{"ab", "cd"}, {"x[0-9]+", "y"}, {"one", "##", "two"}, {"(?:p|q)r"}}).Draw(t, "cmdnestbody") {
+						if e == "##" {
+							add(Line{K: KConcat})
+						} else {
+							add(Line{K: KEntry, T: e, Ind: "  "})
+						}
+					}
+					add(Line{K: KEnd})
+					s.label("assemble-inside-cmdline")
 				case s.o.CmdLiteral && rapid.IntRange(0, 5).Draw(t, "cmdlit") == 0:
 					add(Line{K: KEntry, T: "'" + rapid.SampledFrom([]string{`\s+x`, `(?:a|b)`, `[;,]`, `x@`, `y~`}).Draw(t, "cmdlitv")})
 					s.label("cmdline-literal")
@@ -609,14 +622,14 @@ func CmdWordGen(t *rapid.T) string {
 	n := rapid.IntRange(1, 8).Draw(t, "wlen")
 	var sb strings.Builder
 	for i := 0; i < n; i++ {
-		c := rapid.SampledFrom([]string{"a", "b", "c", "l", "s", "p", "y", "t", "h", "o", "n", "3", "0", ".", "-", "_", " "}).Draw(t, "wc")
+		c := rapid.SampledFrom([]string{"a", "b", "c", "l", "s", "p", "y", "t", "h", "o", "n", "3", "0", ".", "-", "_", " ", "a", "b", "c", "l", "s", "p", "y", "t", "h", "o", "n", "3", "0", ".", "-", "_", " ", "é", "ß", "日"}).Draw(t, "wc")
 		if c == " " && (i == 0 || i == n-1) {
 			c = "x"
 		}
 		sb.WriteString(c)
 	}
 	w := sb.String()
-	switch rapid.IntRange(0, 9).Draw(t, "wmark") {
+	switch rapid.IntRange(0, 10).Draw(t, "wmark") {
 	case 0, 1:
 		w += "@"
 	case 2, 3:
@@ -625,6 +638,9 @@ func CmdWordGen(t *rapid.T) string {
 		w += `\@`
 	case 5:
 		w += `\~`
+	case 6:
+		// the word ends in a literal marker character and carries a marker as well
+		w += rapid.SampledFrom([]string{`\@@`, `\@~`, `\~@`, `\~~`}).Draw(t, "wmark2")
 	}
 	return w
 }
